@@ -290,3 +290,8 @@ class Program(object):
             if not dependents.get(command.result_name)
         ):
             command.run()
+
+        # Commands on a reference cycle have dependents but are not reachable from any leaf; running every command
+        # (finished commands are skipped) reports the cycle instead of silently leaving them un-executed.
+        for command in self.commands.values():
+            command.run()
